@@ -600,3 +600,88 @@ def builder_rules(chk, P, prefix, select, floor):
         n += 1
         chk.ob("%s.builder:%s" % (prefix, b.key), "a builder step stores its argument in the like-named field and keeps every other field of self", f, loc=b.span)
     chk.floor("builder / setter methods", n, floor)
+
+
+def level_parser_table(chk, P, prefix):
+    """The lenient level parser's per-byte decision table, read off the loop of emit::level::parse:
+        end of input                                  -> Ok(level)
+        letter, expected name exhausted               -> Err
+        letter, differs from the next expected letter -> Err
+        letter, equals it (case-insensitively)        -> next byte (both cursors advance)
+        not a letter, printable ASCII                 -> Ok(level)   (`info13`, `INFO(4)`)
+        not a letter, control or non-ASCII            -> Err"""
+    def f():
+        b = P.body("emit::level::parse")
+        be = b.back_edges()
+        if len(be) != 1:
+            raise mir.AnchorMissing("the byte loop of emit::level::parse")
+        src, h = be[0]
+        rows = {}
+        ends = set(b.return_blocks()) | {src}
+        for e in ends:
+            for path in b.acyclic_paths(h, e, limit=3000):
+                ps = mir.PathSummary(b, path)
+                atoms = {}
+                gets = 0
+                for sbb, o, v in ps.decisions():
+                    true_edge = tuple(v) not in (("0",), (0,))
+                    x = o[1] if o[0] == "discr" else o
+                    if x[0] == "call":
+                        nm = x[1].callee.get("name")
+                        if nm == "get":
+                            gets += 1
+                            atoms["more" if gets == 1 else "expected_left"] = (tuple(v) in (("1",), (1,)))
+                        elif nm in ("is_ascii_alphabetic", "is_ascii", "is_ascii_control"):
+                            atoms[nm] = true_edge
+                    elif x[0] == "binop" and x[1] in ("Ne", "Eq"):
+                        atoms["mismatch"] = true_edge if x[1] == "Ne" else not true_edge
+                if e == src:
+                    out = "next"
+                else:
+                    r = ps.ret()
+                    out = "ok" if (r[0] == "agg" and r[1].get("variant") == "Ok" and mir.o_is_param(r[2][0], idx=3)) else \
+                          ("err" if (r[0] == "agg" and r[1].get("variant") == "Err") else "other:%s" % mir.o_str(r))
+                rows[tuple(sorted(atoms.items()))] = out
+        want = {
+            (("more", False),): "ok",
+            (("expected_left", False), ("is_ascii_alphabetic", True), ("more", True)): "err",
+            (("expected_left", True), ("is_ascii_alphabetic", True), ("mismatch", True), ("more", True)): "err",
+            (("expected_left", True), ("is_ascii_alphabetic", True), ("mismatch", False), ("more", True)): "next",
+            (("is_ascii", True), ("is_ascii_alphabetic", False), ("is_ascii_control", False), ("more", True)): "ok",
+            (("is_ascii", True), ("is_ascii_alphabetic", False), ("is_ascii_control", True), ("more", True)): "err",
+            (("is_ascii", False), ("is_ascii_alphabetic", False), ("more", True)): "err",
+        }
+        if rows != want:
+            diff = [(k, rows.get(k), want.get(k)) for k in set(rows) | set(want) if rows.get(k) != want.get(k)]
+            return False, ("the level parser's decision table differs from `prefix of the level name, then end or a printable non-letter`: "
+                           "(conditions, found, expected) = %s" % diff[:3]), [], b.span
+        # the mismatch test is case-insensitive on the input byte and both cursors advance by one on the matching edge
+        up = [c for c in b.calls(normal_only=True) if c.callee.get("name") == "to_ascii_uppercase"]
+        if len(up) != 1:
+            return False, "the comparison with the expected letter is not case-insensitive (to_ascii_uppercase on the input byte)", [], b.span
+        return True, "", [b.span]
+    chk.ob("%s.parser-table:emit::level::parse" % prefix, "the lenient level parser decides each byte by the documented table (prefix of the name, then end or a printable non-letter)", f)
+
+    def g():
+        b = P.impl_method("core::str::traits::FromStr", "emit::level::Level", "from_str")
+        # first byte -> (expected names, level): each arm parses against the names of its own level
+        LV = {"I": "Info", "D": "Debug", "E": "Error", "W": "Warn"}
+        n = 0
+        for x in [b] + P.closures_of(b):
+            for c in x.calls(normal_only=True):
+                if c.callee.get("path") != "emit::level::parse":
+                    continue
+                n += 1
+                eo = x.origin(c.args[1])
+                v = eo[1].get("v") if eo[0] == "const" and isinstance(eo[1], dict) else None
+                bs = bytes(v["bytes"]).decode() if isinstance(v, dict) and v.get("bytes") else mir.o_const_value(eo)
+                lo = x.origin(c.args[2])
+                lv = lo[1].get("variant") if lo[0] == "agg" else None
+                if not isinstance(bs, str) or not bs or bs != bs.upper():
+                    return False, "parse is given the expected name %r (must be a non-empty upper-case literal)" % (bs,), [], c.loc
+                if LV.get(bs[0]) != lv:
+                    return False, "the name %s is parsed as Level::%s" % (bs, lv), [], c.loc
+        if n != 6:
+            return False, "expected the six accepted names (INFORMATION, DEBUG, DBG, ERROR, WARNING, WRN), found %d parse calls" % n, [], b.span
+        return True, "", [b.span]
+    chk.ob("%s.parser-table:Level::from_str" % prefix, "each accepted level name is parsed to the level whose initial it carries", g)
